@@ -145,6 +145,23 @@ def r2(ctx):
             okc = bool(wr) and bool(none_edges) and all(b.dominated_by_any(x, edges=none_edges) for x in wr)
         ctx.inst(R, f"{fid}:copy-on-first-use", okc, b.span, "override is created from the global config on first use, then kept" if okc else
                  "the override accessor does not create the override only when there is none (get_or_insert_with, or an insert on the None arm): an existing per-link setting is overwritten")
+    # what a setter stores is what it was given: the value written to the override is the argument itself (a `.max(min)` "normalisation"
+    # silently raises a maximum set below the inherited minimum - the per-link setting then no longer wins)
+    for fid, fields in (("turmoil::top::Topology::set_link_max_message_latency", ("max_message_latency",)),
+                        ("turmoil::top::Topology::set_link_message_latency", ("min_message_latency", "max_message_latency")),
+                        ("turmoil::top::Topology::set_max_message_latency", ("max_message_latency",))):
+        b = ctx.w.bodies.get(fid)
+        if not b:
+            continue
+        for bb, i, s2 in b.all_stmts():
+            lf = place_last_field(s2["p"]) or ""
+            if i == "term" or not lf.startswith("turmoil::config::Latency::") or lf.rsplit("::", 1)[1] not in fields:
+                continue
+            o = origin(b, s2["r"]["o"]) if s2["r"]["k"] == "use" else {"k": "?"}
+            pure = o["k"] == "place" and bool(o.get("arg"))
+            ctx.inst(R, f"{fid}:stores-argument:{lf.rsplit('::', 1)[1]}", pure, s2["s"], "the setter stores its argument" if pure else
+                     f"`{fid}` stores a value computed from its argument (and other settings) into {lf.rsplit('::', 1)[1]}, not the argument itself: a per-link maximum below the inherited "
+                     "minimum is silently raised, and messages on the link take the old minimum instead of at most the per-link maximum")
     # who may write an override: only the two accessors above (and so only the set_link_* setters that call them). A global setter that
     # also rewrote existing overrides would silently cancel a per-link setting made earlier
     # (config::Link is also the type of the global configuration: an override is a place below top::Link::config)
